@@ -230,7 +230,7 @@ def typed_case(item):
                                   'datetime': dict(format='%d.%m.%Y %H.%M.%S')}.get(tp, {}))
                 fields.append((n, tp, extra))
             rows = [{n: rand_value(r, tp, tier, 1000 if cfg['temporal'] else 1) for n, tp in zip(names, types)} for _ in range(r.randint(0, 5))]
-            resources.append(('res%d' % ri, fields, rows))
+            resources.append(('res%d' % ri, fields, rows, None, ({'missingValues': list(cfg['missing'])} if cfg.get('missing') else None)))
         opts = dict(add_filehash_to_path=cfg['filehash'])
         if cfg['temporal']:
             opts['temporal_format_property'] = 'outputFormat'
@@ -240,6 +240,7 @@ def typed_case(item):
         except Exception as e:
             return dict(ok=False, why='dump raised %s: %s' % (type(e).__name__, str(e)[:200]), cfg=cfg)
         problems, files, kf_crlf = [], [], []
+        resources = [x[:3] for x in resources]
         alpha_ok = all([f[0] for f in fields] == sorted(f[0] for f in fields) for _, fields, _ in resources)
         # structure of the written descriptor
         if [x['name'] for x in desc['resources']] != [n for n, _, _ in resources]:
@@ -253,6 +254,8 @@ def typed_case(item):
         for ri, (name, fields, rows) in enumerate(resources):
             wres = desc['resources'][ri]
             wfields = wres['schema']['fields']
+            if cfg.get('missing') and wres['schema'].get('missingValues') != list(cfg['missing']):
+                problems.append('the written descriptor does not record the missing values of the resource (%s): %r' % (name, wres['schema'].get('missingValues')))
             if [(f['name'], f['type']) for f in wfields] != [(f[0], f[1]) for f in fields]:
                 problems.append('field names / types / order in the written descriptor differ (%s)' % name)
                 continue
@@ -285,6 +288,21 @@ def typed_case(item):
         return dict(ok=True, problems=problems, files=files, cfg=cfg, alpha_ok=alpha_ok, seed=item['seed'], kf_crlf=kf_crlf)
     finally:
         shutil.rmtree(root, ignore_errors=True)
+
+
+def model_missing(rep):
+    wd = tlc.workdir('c03m')
+    cfg = tlc.write_cfg(os.path.join(wd, 'm.cfg'), constants={'NullAs': '"declared"'}, invariants=['CellRoundTrip'], constraints=['Export'])
+    res = tlc.run_tlc('Missing', cfg, workers=1, allow_violation=False)
+    rep.add_tlc(res, 'Missing: every cell x every missingValues list: a descriptor-only reader gets back what entered the writer (NullAs = declared, the code)')
+    cfg = tlc.write_cfg(os.path.join(wd, 'm0.cfg'), constants={'NullAs': '"empty"'}, invariants=['CellRoundTrip'])
+    if not tlc.run_tlc('Missing', cfg).violated:
+        raise tlc.MachineryError('non-vacuity: Missing with NullAs="empty" (the pinned writer) must violate CellRoundTrip')
+    out = []
+    for c in res.cases:
+        if c['mv'] not in out:
+            out.append(c['mv'])
+    return out
 
 
 def decode_with_spec(rep, csv_files):
@@ -346,9 +364,11 @@ def run():
             for o in ('alpha', 'reversed', 'shuffled')]
     items = []
     per = 3 if t == 'quick' else 60
+    # the resource's own missingValues (Missing.tla): how a null is written must be something the recorded descriptor reads back as a null
+    mvs = model_missing(rep)
     for cfg in cfgs:
         for _ in range(per):
-            items.append(dict(cfg=cfg, seed=r.randrange(10 ** 9), tier=t))
+            items.append(dict(cfg=dict(cfg, missing=r.choice([None, None] + mvs)), seed=r.randrange(10 ** 9), tier=t))
     tres = pmap(typed_case, items, chunksize=4)
     errs = harness_errors(tres)
     if errs:
